@@ -735,6 +735,10 @@ fn gen_simplify_path(r: &mut Rng) -> BezPath {
         let nrun = 1 + r.below(3);
         let mut first = true;
         let mut start = Point::ZERO;
+        // A MoveTo that does not move the pen: the sub-path starts EXACTLY at the last drawn vertex of the preceding
+        // sub-path (open or closed) or at its start point. It is a new sub-path all the same: the run is flushed,
+        // the MoveTo is emitted, and a later ClosePath closes to this MoveTo.
+        let forced: Option<Point> = if r.chance(1, 3) { pen_points(&bp).map(|(st, en)| if r.bool() { en } else { st }) } else { None };
         for _ in 0..nrun {
             match r.below(6) {
                 0 | 1 | 2 => {
@@ -748,7 +752,7 @@ fn gen_simplify_path(r: &mut Rng) -> BezPath {
                         PathEl::MoveTo(p) => p,
                         _ => unreachable!(),
                     };
-                    let cur = if first { p0 } else { last_point(&bp).unwrap_or(p0) };
+                    let cur = if first { forced.unwrap_or(p0) } else { last_point(&bp).unwrap_or(p0) };
                     let off = cur - p0;
                     if first {
                         bp.move_to(cur);
@@ -761,7 +765,7 @@ fn gen_simplify_path(r: &mut Rng) -> BezPath {
                     }
                 }
                 3 => {
-                    let p = Point::new(r.grid(8, 2.0) * size, r.grid(8, 2.0) * size);
+                    let p = forced.unwrap_or(Point::new(r.grid(8, 2.0) * size, r.grid(8, 2.0) * size));
                     if first {
                         bp.move_to(p);
                         start = p;
@@ -778,7 +782,7 @@ fn gen_simplify_path(r: &mut Rng) -> BezPath {
                 4 => {
                     // tame coordinates: this run is smooth (quad + collinear line) and goes to the fitter
                     let gp = |r: &mut Rng| Point::new(r.grid(8, 2.0) * size, r.grid(8, 2.0) * size);
-                    let p = gp(r);
+                    let p = forced.unwrap_or(gp(r));
                     if first {
                         bp.move_to(p);
                         start = p;
@@ -798,7 +802,7 @@ fn gen_simplify_path(r: &mut Rng) -> BezPath {
                     }
                 }
                 _ => {
-                    let p = grid_point(r);
+                    let p = forced.unwrap_or(grid_point(r));
                     if first {
                         bp.move_to(p);
                         start = p;
@@ -834,6 +838,26 @@ fn gen_simplify_path(r: &mut Rng) -> BezPath {
         }
     }
     bp
+}
+
+/// (start of the last sub-path, last drawn vertex) of the path built so far
+fn pen_points(bp: &BezPath) -> Option<(Point, Point)> {
+    let mut start = None;
+    let mut last = None;
+    for e in bp.elements() {
+        match *e {
+            PathEl::MoveTo(p) => {
+                start = Some(p);
+                last = Some(p);
+            }
+            PathEl::LineTo(p) | PathEl::QuadTo(_, p) | PathEl::CurveTo(_, _, p) => last = Some(p),
+            PathEl::ClosePath => {}
+        }
+    }
+    match (start, last) {
+        (Some(a), Some(b)) => Some((a, b)),
+        _ => None,
+    }
 }
 
 fn last_point(bp: &BezPath) -> Option<Point> {
@@ -920,9 +944,25 @@ fn corr_simplify(r: &mut Rng, thorough: bool, o: &mut Out) {
         let nsub = els.iter().filter(|e| matches!(e, PathEl::MoveTo(_))).count();
         let after_close = els.windows(2).any(|w| matches!(w[0], PathEl::ClosePath) && !matches!(w[1], PathEl::MoveTo(_)));
         // the repaired branch: fewer ClosePath out than in
+        // a MoveTo exactly at the current pen position / at the previous sub-path's start
+        let still_moveto = {
+            let (mut st, mut pen, mut hit) = (None, None, false);
+            for e in &els {
+                match *e {
+                    PathEl::MoveTo(p) => {
+                        hit |= Some(p) == pen || Some(p) == st;
+                        st = Some(p);
+                        pen = Some(p);
+                    }
+                    PathEl::LineTo(p) | PathEl::QuadTo(_, p) | PathEl::CurveTo(_, _, p) => pen = Some(p),
+                    PathEl::ClosePath => {}
+                }
+            }
+            hit
+        };
         let nclose = |e: &[PathEl]| e.iter().filter(|x| matches!(x, PathEl::ClosePath)).count();
         let dropped_close = nclose(real.elements()) < nclose(&els);
-        let tag = format!("{}sub{}{}{}", nsub.min(4), if nq == 0 { ":passthrough" } else { ":fitted" }, if level { ":opt" } else { ":subdiv" }, if after_close { ":draw-after-close" } else if dropped_close { ":close-dropped" } else { "" });
+        let tag = format!("{}sub{}{}{}", nsub.min(4), if nq == 0 { ":passthrough" } else { ":fitted" }, if level { ":opt" } else { ":subdiv" }, if after_close { ":draw-after-close" } else if dropped_close { ":close-dropped" } else if still_moveto { ":moveto-at-pen" } else { "" });
         o.case(7, "simplify-structure", args, obs, els.len() > 3, &tag);
     }
     if fitter_panics > 0 {
@@ -1285,12 +1325,16 @@ fn cub_d2(c: &CubicBez, t: f64) -> Vec2 {
 }
 
 /// A curve made of smooth pieces `f(piece, t)`, sampled `m` steps per piece, with bounding boxes
-/// over blocks of `BLK` polyline segments for pruning.
+/// over blocks of `BLK` polyline segments for pruning. `dev[k]` bounds how far the curve strays from its
+/// k-th polyline segment (twice the mid-point deviation; exact would be once for a parabola), so that
+/// `seg distance - dev` is a LOWER bound of the distance to that stretch of the curve: no stretch that could
+/// contain the nearest point is ever discarded, however coarse the polyline is relative to the threshold.
 struct Sampled<'a> {
     f: &'a dyn Fn(usize, f64) -> Point,
     n: usize,
     m: usize,
     pts: Vec<Point>,
+    dev: Vec<f64>,
     boxes: Vec<(f64, f64, f64, f64)>,
 }
 const BLK: usize = 8;
@@ -1299,33 +1343,52 @@ impl<'a> Sampled<'a> {
     fn new(f: &'a dyn Fn(usize, f64) -> Point, n: usize, m: usize) -> Sampled<'a> {
         let m = ((m + BLK - 1) / BLK) * BLK;
         let mut pts = Vec::with_capacity(n * (m + 1));
+        let mut dev = Vec::with_capacity(n * m);
         for i in 0..n {
             for k in 0..=m {
                 pts.push(f(i, k as f64 / m as f64));
+            }
+            for k in 0..m {
+                let (a, b) = (pts[i * (m + 1) + k], pts[i * (m + 1) + k + 1]);
+                let mid = f(i, (k as f64 + 0.5) / m as f64);
+                let q1 = f(i, (k as f64 + 0.25) / m as f64);
+                let q3 = f(i, (k as f64 + 0.75) / m as f64);
+                let dseg = |q: Point| {
+                    let d = b - a;
+                    let l2 = d.hypot2();
+                    let u = if l2 > 0.0 { ((q - a).dot(d) / l2).clamp(0.0, 1.0) } else { 0.0 };
+                    (q - (a + d * u)).hypot()
+                };
+                dev.push(2.0 * dseg(mid).max(dseg(q1)).max(dseg(q3)) + 1e-12 * (a.x.abs() + a.y.abs() + 1.0));
             }
         }
         let mut boxes = Vec::new();
         for i in 0..n {
             for b in 0..m / BLK {
                 let s = &pts[i * (m + 1) + b * BLK..=i * (m + 1) + (b + 1) * BLK];
+                let e = dev[i * m + b * BLK..i * m + (b + 1) * BLK].iter().fold(0.0f64, |x, y| x.max(*y));
                 let mut bx = (f64::INFINITY, f64::INFINITY, f64::NEG_INFINITY, f64::NEG_INFINITY);
                 for p in s {
                     bx = (bx.0.min(p.x), bx.1.min(p.y), bx.2.max(p.x), bx.3.max(p.y));
                 }
-                boxes.push(bx);
+                boxes.push((bx.0 - e, bx.1 - e, bx.2 + e, bx.3 + e));
             }
         }
-        Sampled { f, n, m, pts, boxes }
+        Sampled { f, n, m, pts, dev, boxes }
     }
-    fn seg_d2(&self, q: Point, piece: usize, k: usize) -> f64 {
+    fn seg_d(&self, q: Point, piece: usize, k: usize) -> f64 {
         let a = self.pts[piece * (self.m + 1) + k];
         let b = self.pts[piece * (self.m + 1) + k + 1];
         let d = b - a;
         let l2 = d.hypot2();
         let u = if l2 > 0.0 { ((q - a).dot(d) / l2).clamp(0.0, 1.0) } else { 0.0 };
-        (q - (a + d * u)).hypot2()
+        (q - (a + d * u)).hypot()
     }
-    /// the nearest polyline segment, squared distance (pruned by block boxes)
+    /// lower bound of the distance from `q` to the stretch of curve over polyline segment (piece, k)
+    fn seg_lb(&self, q: Point, piece: usize, k: usize) -> f64 {
+        (self.seg_d(q, piece, k) - self.dev[piece * self.m + k]).max(0.0)
+    }
+    /// the polyline segment with the smallest lower bound (pruned by the inflated block boxes)
     fn coarse(&self, q: Point) -> (usize, usize, f64) {
         let mut best = (0, 0, f64::INFINITY);
         let nb = self.m / BLK;
@@ -1334,13 +1397,13 @@ impl<'a> Sampled<'a> {
                 let bx = self.boxes[i * nb + b];
                 let dx = (bx.0 - q.x).max(q.x - bx.2).max(0.0);
                 let dy = (bx.1 - q.y).max(q.y - bx.3).max(0.0);
-                if dx * dx + dy * dy >= best.2 {
+                if (dx * dx + dy * dy).sqrt() >= best.2 {
                     continue;
                 }
                 for k in b * BLK..(b + 1) * BLK {
-                    let d2 = self.seg_d2(q, i, k);
-                    if d2 < best.2 {
-                        best = (i, k, d2);
+                    let lb = self.seg_lb(q, i, k);
+                    if lb < best.2 {
+                        best = (i, k, lb);
                     }
                 }
             }
@@ -1354,6 +1417,7 @@ impl<'a> Sampled<'a> {
         let mut hi = ((k + 1) as f64 * h + 0.5 * h).min(1.0);
         let g = 0.381966011250105;
         let d2 = |t: f64| ((self.f)(piece, t) - q).hypot2();
+        let ends = d2(lo).min(d2(hi)).min(d2(k as f64 * h)).min(d2((k + 1) as f64 * h));
         let (mut x1, mut x2) = (lo + g * (hi - lo), hi - g * (hi - lo));
         let (mut f1, mut f2) = (d2(x1), d2(x2));
         for _ in 0..60 {
@@ -1371,12 +1435,12 @@ impl<'a> Sampled<'a> {
                 f2 = d2(x2);
             }
         }
-        f1.min(f2).min(d2(lo)).min(d2(hi)).sqrt()
+        f1.min(f2).min(d2(lo)).min(d2(hi)).min(ends).sqrt()
     }
     /// An upper bound `u` on dist(q, curve) (always the distance to a point ON the curve); if `u > thr`
-    /// every polyline segment closer than `u` has been refined, so `u` is the distance up to ~1e-12.
+    /// every stretch whose lower bound is below `u` has been refined, so `u` is the distance up to ~1e-12.
     fn dist_upper(&self, q: Point, thr: f64) -> f64 {
-        let (i, k, d2) = self.coarse(q);
+        let (i, k, _) = self.coarse(q);
         let mut u = self.refine(q, i, k);
         if k > 0 {
             u = u.min(self.refine(q, i, k - 1));
@@ -1384,14 +1448,16 @@ impl<'a> Sampled<'a> {
         if k + 1 < self.m {
             u = u.min(self.refine(q, i, k + 1));
         }
-        let _ = d2;
         if u <= thr {
             return u;
         }
         for i in 0..self.n {
             for k in 0..self.m {
-                if self.seg_d2(q, i, k).sqrt() <= u {
+                if self.seg_lb(q, i, k) <= u {
                     u = u.min(self.refine(q, i, k));
+                    if u <= thr {
+                        return u;
+                    }
                 }
             }
         }
@@ -1401,8 +1467,9 @@ impl<'a> Sampled<'a> {
     fn far_from(&self, other: &Sampled, thr: f64) -> Option<(Point, f64)> {
         let mut worst: Option<(Point, f64)> = None;
         for q in &self.pts {
-            let (_, _, d2) = other.coarse(*q);
-            if d2.sqrt() <= thr {
+            let (i, k, _) = other.coarse(*q);
+            // the polyline vertex distance is already an upper bound: cheap accept
+            if other.seg_d(*q, i, k) + other.dev[i * other.m + k] <= thr {
                 continue;
             }
             let u = other.dist_upper(*q, thr);
@@ -1787,6 +1854,8 @@ fn rot_tr(p: Point, rot: f64, tr: Vec2) -> Point {
 /// args: [level, accuracy, elements]; the angle threshold is the default 1e-3
 fn g_simplify(r: &mut Rng) -> Vec<f64> {
     let size = 10f64.powf(r.uniform(0.0, 3.0));
+    let level = r.below(2) as f64;
+    let acc = acc_of(r);
     let mut bp = BezPath::new();
     let nsub = 1 + r.below(3);
     for k in 0..nsub {
@@ -1801,6 +1870,13 @@ fn g_simplify(r: &mut Rng) -> Vec<f64> {
         }
         let nrun = 1 + r.below(4);
         let mut cur = Point::new(r.uniform(-size, size), r.uniform(-size, size));
+        // a MoveTo that does not move the pen (exactly the previous sub-path's last vertex, open or closed) or that
+        // goes back exactly to the previous sub-path's start: still a new sub-path with its own MoveTo and anchor
+        if k > 0 && r.chance(1, 4) {
+            if let Some((st, en)) = pen_points(&bp) {
+                cur = if r.chance(2, 3) { en } else { st };
+            }
+        }
         let start = cur;
         bp.move_to(cur);
         let mut last_dir: Option<Vec2> = None;
@@ -1814,6 +1890,12 @@ fn g_simplify(r: &mut Rng) -> Vec<f64> {
                 let q = Point::new(r.uniform(-size, size), r.uniform(-size, size));
                 run.move_to(Point::ZERO);
                 run.line_to(q);
+            } else if level == 0.0 && r.chance(1, 5) {
+                // a run with a localised feature (3..4.5 x accuracy; see gen_bump_chain), subdividing fitter only:
+                // the optimising one loses such features on the pinned tree (known finding C18-opt-localised-feature)
+                let hk = r.uniform(3.0, 4.5);
+                let (n, i0, a) = gen_bump_chain(r, acc, hk);
+                run = bump_chain_path(n, i0, &a);
             } else {
                 let (a, th0, th1, step) = gen_analytic(r, size);
                 let nmin = (((th1 - th0).abs() / step).ceil() as usize).max(1);
@@ -1871,7 +1953,7 @@ fn g_simplify(r: &mut Rng) -> Vec<f64> {
             _ => {}
         }
     }
-    let mut v = vec![r.below(2) as f64, acc_of(r)];
+    let mut v = vec![level, acc];
     v.extend(enc_els(bp.elements()));
     v
 }
@@ -1960,9 +2042,11 @@ fn law_simplify(v: &[f64]) -> Option<(String, String)> {
             }
         }
         if let Some((cls, p, d)) = hausdorff_violation(&|i, t| cub_at(&ca[i], t), ca.len(), &cb, thr) {
+            let other: &[CubicBez] = if cls.starts_with("source") { &cb } else { &ca };
+            let m = other.iter().map(|c| c.nearest(p, 1e-12).distance_sq).fold(f64::INFINITY, f64::min).sqrt();
             return fail(
                 &format!("{}:{}", what, cls),
-                format!("accuracy {}: sub-path {} point {:?} at distance {} = {:.3} x accuracy ({} -> {} segments)", acc, k, p, d, d / acc, ca.len(), cb.len()),
+                format!("accuracy {}: sub-path {} point {:?} at distance {} = {:.3} x accuracy ({} -> {} segments; CubicBez::nearest gives {})", acc, k, p, d, d / acc, ca.len(), cb.len(), m),
             );
         }
     }
@@ -1998,7 +2082,9 @@ fn law_fit_feature(v: &[f64]) -> Option<(String, String)> {
     if !(1e-4..=1.0).contains(&acc) {
         return None;
     }
-    let band = if h.abs() <= 4.5 * acc { "feature-low" } else { "feature-high" };
+    // class = feature[-opt] : low|high : chain|analytic : <what failed>
+    let band = if h.abs() <= 4.5 * acc { "low" } else { "high" };
+    let fitter = if v[1] != 0.0 { "feature-opt" } else { "feature" };
     let res = if kind {
         let mut w = vec![v[1], acc];
         w.extend_from_slice(&v[5..15]);
@@ -2013,7 +2099,10 @@ fn law_fit_feature(v: &[f64]) -> Option<(String, String)> {
         w.extend(enc_els(bp.elements()));
         law_fit_chain(&w)
     };
-    res.map(|(cls, d)| (format!("{}:{}", band, cls), format!("feature height {:.2} x accuracy: {}", h.abs() / acc, d)))
+    res.map(|(cls, d)| {
+        let what = cls.split_once(':').map(|x| x.1).unwrap_or(&cls).to_string();
+        (format!("{}:{}:{}:{}", fitter, band, if kind { "analytic" } else { "chain" }, what), format!("feature height {:.2} x accuracy: {}", h.abs() / acc, d))
+    })
 }
 
 fn laws() -> Vec<Law> {
@@ -2026,8 +2115,31 @@ fn laws() -> Vec<Law> {
     ]
 }
 
+/// Witnesses of the known findings (known_findings.txt): localised features the pinned fitters lose.
+const KNOWN_WITNESSES: [(&str, &str, [f64; 15]); 3] = [
+    (
+        "C18-opt-localised-feature",
+        "fit_to_bezpath_opt, chain of 38 G1 cubics, plateau of 9.2 x accuracy on the last three segments: 3 cubics, source point 3.6 x accuracy from the fit",
+        [0.0, 1.0, 0.18546018234017428, 38.0, 35.0, 5.0, -846.7067724640609, 970.1950071067699, 5.516607273913045, 1670.2662825960128, -12.39235846887631, -1.7051320738964388, 0.9345338087394408, 0.015283401380121185, 0.03489938850031681],
+    ),
+    (
+        "C18-opt-localised-feature",
+        "fit_to_bezpath_opt, analytic source, plateau of 7.1 x accuracy at the end: fitted point 7.4 x accuracy from the source",
+        [1.0, 1.0, 0.054697782868116496, 0.0, 0.0, 5.0, 52.95899700327708, -65.2757156460836, 4.104829476109734, 116.00182809430159, 3.131501158177127, 0.3871026380211817, 0.9153229209462592, 0.012502188902124877, 0.05475333496968296],
+    ),
+    (
+        "C18-subdiv-feature-overshoot",
+        "fit_to_bezpath, analytic source, plateau of 4.3 x accuracy: fitted point 3.6 x accuracy from the source",
+        [1.0, 0.0, 0.260298482009832, 0.0, 0.0, 5.0, 498.55150507017515, 2030.2260609200684, 0.8747960846691939, 2065.546658855443, -119.76568758827446, 1.1169482745772374, 0.19078702468213998, 0.013143792451330598, 0.05429741440472986],
+    ),
+];
+
 fn extra(_r: &mut Rng, _thorough: bool, o: &mut Out) {
     use std::sync::atomic::Ordering::Relaxed;
+    for (id, what, args) in KNOWN_WITNESSES.iter() {
+        let res = law_fit_feature(args);
+        o.known(id, res.is_some(), format!("{} -> {}", what, res.map(|x| format!("{}: {}", x.0, x.1)).unwrap_or_else(|| "holds now".into())));
+    }
     o.notes.push(format!(
         "law inputs outside the property's domain (no verdict): fit_chain {} (non-smooth chain), offset {} (curvature bound) + {} (global interference); time-outs {}",
         SKIPS[0].load(Relaxed),
